@@ -179,3 +179,18 @@ def n_ov(name):
     """occupied x virtual pairs of the closed-shell sp-basis reference"""
     nocc = n_electrons(name) // 2
     return nocc * (n_orbitals(name) - nocc)
+
+
+def is_linear(name, tol=1e-6):
+    """all atoms of the template on one line (diatomics included): such molecules keep doubly degenerate excited states
+    under ANY distortion that keeps them linear, and diatomics are always linear"""
+    x = np.array(ALL[name]["xyz"], dtype=float)
+    if len(x) <= 2:
+        return True
+    u = x[1] - x[0]
+    u = u / np.linalg.norm(u)
+    for k in range(2, len(x)):
+        w = x[k] - x[0]
+        if np.linalg.norm(w - np.dot(w, u) * u) > tol:
+            return False
+    return True
